@@ -82,7 +82,7 @@ func planC01(w *World, spec RunSpec) {
 	w.drawFaultMix("err-before", "lost-response", "crash", "compaction", "duplicate")
 	w.Cfg.Faults["drift"] = true
 	w.Cfg.Ndist = 60 + s.Intn(300, "ndist")
-	w.Scenario = GenOS(w, OSProfile{MaxSets: 3, Delegation: true, Preexisting: 5, Intruder: "boundary", LateCreate: true})
+	w.Scenario = GenOS(w, OSProfile{MaxSets: 3, Delegation: true, Preexisting: 5, Intruder: "boundary", LateCreate: true, PhaseObjectDrift: s.Bool("phase-object-drift")})
 	w.StartProcesses()
 	w.Disturb(w.Cfg.Ndist)
 	w.finish()
@@ -119,7 +119,7 @@ func planC05(w *World, spec RunSpec) {
 	w.drawFaultMix("err-before", "lost-response", "crash", "compaction", "duplicate")
 	w.Cfg.Faults["drift"] = true
 	w.Cfg.Ndist = 80 + s.Intn(400, "ndist")
-	w.Scenario = GenOS(w, OSProfile{MaxSets: 3, Delegation: true, Lifecycle: true, LateCreate: true, Intruder: "granular", Finalizers: true, Preexisting: 2})
+	w.Scenario = GenOS(w, OSProfile{MaxSets: 3, Delegation: true, Lifecycle: true, LateCreate: true, Intruder: "granular", Finalizers: true, Preexisting: 2, PhaseObjectDrift: s.Bool("phase-object-drift")})
 	ensureTeardownOp(w)
 	w.StartProcesses()
 	w.Disturb(w.Cfg.Ndist)
